@@ -30,6 +30,9 @@ def make_channel(kind, mode, value):
         return C.LaplacianChannel(**kw)
     if kind == "nonlinear_id":
         return C.NonlinearChannel(lambda t: t, add_noise=True, **kw)
+    if kind in ("nonlinear_id_cartesian", "nonlinear_id_polar"):
+        # identity nonlinearity applied per I/Q rail resp. to the magnitude: the noise stage must be the same as in 'direct' mode
+        return C.NonlinearChannel(lambda t: t, add_noise=True, complex_mode=kind.rsplit("_", 1)[1], **kw)
     if kind == "nonlinear_cubic":
         return C.NonlinearChannel(lambda t: t + 0.1 * t ** 3 if not torch.is_complex(t) else t + 0.1 * t * torch.abs(t) ** 2, add_noise=True, **kw)
     if kind == "fading_stage":
@@ -418,12 +421,12 @@ def units(tier, seed):
     T = tier == "thorough"
     N = 32_000_000 if T else 4_000_000
     us = [Unit("verbatim", "c07:unit_verbatim", {}, 1), Unit("conversions", "c07:unit_conversions", {}, 1), Unit("reuse", "c07:unit_reuse", {}, 2)]
-    for kind in ("awgn", "laplacian", "nonlinear_id", "nonlinear_cubic", "fading_stage"):
+    for kind in ("awgn", "laplacian", "nonlinear_id", "nonlinear_id_cartesian", "nonlinear_id_polar", "nonlinear_cubic", "fading_stage"):
         us.append(Unit(f"deterministic_{kind}", "c07:unit_deterministic", {"kind": kind}, 3))
     cfgs = []
     for cplx in (False, True):
         cfgs += [("power", 1e-2, cplx, 1.0), ("power", 1.0, cplx, 1e-3), ("power", 40.0, cplx, 1e3), ("snr", -20.0, cplx, 1.0), ("snr", 0.0, cplx, 1e-2), ("snr", 10.0, cplx, 30.0), ("snr", 40.0, cplx, 1e3)]
-    for kind in ("awgn", "laplacian", "nonlinear_id", "nonlinear_cubic", "fading_stage"):
+    for kind in ("awgn", "laplacian", "nonlinear_id", "nonlinear_id_cartesian", "nonlinear_id_polar", "nonlinear_cubic", "fading_stage"):
         for i in range(0, len(cfgs), 4 if not T else 2):
             us.append(Unit(f"stat_{kind}_{i}", "c07:unit_stat", {"kind": kind, "configs": cfgs[i:i + (4 if not T else 2)], "N": N}, 8))
     us.append(Unit("stat_add_noise_for_snr", "c07:unit_stat", {"kind": "add_noise_for_snr", "configs": [("snr", -10.0, False, 1.0), ("snr", 15.0, True, 5.0), ("snr", 30.0, False, 1e2)], "N": N}, 6))
